@@ -657,3 +657,12 @@ Definition iso_update : op := OAdd (Some 1) 50 (mk_blob 50 (Some 53) 100) 20 11.
 Definition iso_late : op := OAdd (Some 1) 60 (mk_blob 60 (Some 61) 100) 20 12.        (* trigger in cache: tracker (60,1) *)
 Definition iso_late_script : script := [(61, (G_not_found, A_ok))].
 Definition iso_drop : op := OAdd (Some 1) 60 (mk_blob 99 None 100) 20 13.             (* trigger in cache, garbage blob: dropped *)
+
+(* a tower where user 2 never existed, agreeing with iso_tower on user 1's projection and the chain level *)
+Definition iso_hist_alone : list (op * script) :=
+  [ (ORegister 1, []);
+    (OAdd (Some 1) 50 (mk_blob 50 (Some 51) 3000) 20 7, []);
+    (OConnect 1001 [60], []) ].
+Definition iso_tower_alone : option tower :=
+  match init iso_cfg 100 iso_boot with Some t0 => Some (fst (run true t0 iso_hist_alone)) | None => None end.
+
